@@ -7,6 +7,7 @@ func propC20(c *Ctx) propInfo {
 	c.bits256Lengths()
 	c.fieldwiseCopy("E2.R-partial-assign", "boc", "tlb", "ton")
 	c.partialAssign("E2.R-partial-assign", "tlb", "ton", "boc")
+	c.bocDescriptors()      // ... and the parser must read back the descriptor bytes the serialiser writes (d1 fields, data length d2)
 	c.bocDepthLimitsAgree() // a cell's JSON form goes through the serialiser AND the hasher: they must accept the same depths
 	c.intFamily(false, true, false)
 	c.jsonPairs("boc", "tlb", "ton", "tl", "abi")
